@@ -31,3 +31,9 @@ Definition check_dump (t : dtree) (expected : list N) : string :=
   else "ok".
 
 Definition check_dump_case (p : dtree * list N) : string := check_dump (fst p) (snd p).
+
+From Axv Require Import Model.Pages.
+(** The verified ownership checker on one dump: total pages, tree nodes, overflow links, free list, recorded head and tail. *)
+Definition check_pages_case (p : N * list N * list N * list N * option N * option N) : string :=
+  let '(total, tree, ovf, free, head, tail) := p in
+  if check_pages total tree ovf free head tail then "ok" else "bad-ownership".
